@@ -1,5 +1,5 @@
-import AiocoapModel.Basic.Bytes
-/-! Line protocol for C18 (not built yet). -/
+import AiocoapModel.Driver.MsgLayer
+/-! C18 is decided on the shared message-layer model. -/
 namespace Aiocoap
-def handleC18 (_args : List String) : String := "out-of-model"
+def handleC18 (args : List String) : String := MsgLayer.handleMsgLayer args
 end Aiocoap
